@@ -17,8 +17,9 @@ if "pyarrow_hotfix" not in sys.modules:   # the hotfix is a no-op for pyarrow >=
 _TMP = []
 
 
-def make_table(kind, data):
-    """data: dict column -> list (all same length; values int/float/str/bool)."""
+def make_table(kind, data, sql_types=None):
+    """data: dict column -> list (all same length; values int/float/str/bool). sql_types: declared SQL column types that
+    differ from the default (ibis-sqlite only, e.g. {"x": "DECIMAL(10, 2)"})."""
     if kind == "pandas":
         import pandas as pd
         return pd.DataFrame(data)
@@ -48,7 +49,7 @@ def make_table(kind, data):
             if isinstance(v, float):
                 return "REAL"
             return "TEXT"
-        con.execute("CREATE TABLE t (" + ", ".join(f'"{c}" {sqltype(data[c])}' for c in cols) + ")")
+        con.execute("CREATE TABLE t (" + ", ".join(f'"{c}" {(sql_types or {}).get(c) or sqltype(data[c])}' for c in cols) + ")")
         rows = list(zip(*[data[c] for c in cols]))
         con.executemany("INSERT INTO t VALUES (" + ",".join("?" * len(cols)) + ")", rows)
         con.commit()
